@@ -1,5 +1,5 @@
 PROP = {
-    "thm": ["Umya.Thm.C20", "Umya.Thm.C20Gen"],
+    "thm": ["Umya.Thm.C20", "Umya.Thm.C20Gen", "Umya.Thm.C20Wrap"],
     "harness": "c20",
     "level": "proof",
     "stateful": True,
@@ -8,6 +8,13 @@ PROP = {
                   "written from the RFC recovers the expected grid from the model's text for ALL sheets and options "
                   "(C20_parse_back, C20_rect, C20_cell), UTF-16LE/BE and UTF-8 decode(encode)=id for all scalar values (C20_utf16, C20_utf8), "
                   "the composition bytes->decode->read (C20_end_to_end), no panic on any reachable workbook (C20_active). "
+                  "Wrap STRINGS of any length (Umya/Model/CsvWrap.lean: str::replace(w, ww) as leftmost non-overlapping matches): a reader written from the "
+                  "same grammar with the quote generalised to a string (Umya/Spec/CsvWrap.lean: w opens/closes, w w inside is one w; escaped fields only) "
+                  "recovers the expected grid for ALL sheets, both trim settings and every wrap string that is non-empty, not `,`/CR/CRLF and has no proper "
+                  "self-overlap (C20_wrap_string_roundtrip); the last condition is exact: every self-overlapping string has a value whose export is not read back "
+                  "(C20_wrap_string_overlap_necessary, C20_wrap_string_exact = the iff; C20_wrap_string_overlap_fails: w=aa value a, replayed against the real "
+                  "writer together with w=aba value ab); for one character the general model equals the one-character model (C20_wrap_string_single_text) and "
+                  "the string reader is a restriction of the RFC 4180 reader (C20_wrap_reader_refines_rfc). "
                   "The model is tied to the code on every run by a stateful differential check (bytes for UTF-8/16, decoded text for "
                   "the code pages) and the implementation is checked directly by an independent reader in the harness.",
     "level_note": "Trusted: Lean kernel + 3 standard axioms; the hand model's faithfulness as exercised by the correspondence stream; "
@@ -15,12 +22,18 @@ PROP = {
                   "Rust str::trim / char::is_whitespace (modelled as the Unicode White_Space set); String::from_utf16 as reference decoder.",
     "expect_theorems": ["C20_field_matches_source", "C20_writer_matches_source", "C20_parse_back", "C20_parse_back_std", "C20_rect", "C20_cell", "C20_utf16", "C20_utf8", "C20_end_to_end",
                         "C20_highest", "C20_active", "C20_trim", "C20_wrap", "C20_empty_sheet", "C20_single_empty_column", "C20_zero_columns_fails",
-                        "C20_set_active_unchecked"],
+                        "C20_set_active_unchecked",
+                        "C20_wrap_string_escape", "C20_wrap_string_single", "C20_wrap_string_single_text", "C20_wrap_string_roundtrip",
+                        "C20_wrap_string_overlap_fails", "C20_wrap_string_overlap_necessary", "C20_wrap_string_exact", "C20_wrap_reader_refines_rfc"],
     "rule": "a case = `reset`, 0-3 extra sheets, 0-25 set_value_string calls on a sparse grid (rows<=40, cols<=9; values over "
             "`, \" ' CR LF TAB blank`, ASCII, U+0001, U+00A0, U+2028, U+3000, U+FFFE, non-BMP, per-encoding repertoires, whole-cell "
             "specials such as TRUE/123/#N/A/\"\"), optional set_active_sheet / remove_sheet / new_sheet edits, then 3-7 exports rotating "
             "over 10 encodings x trim on/off x wrap none/\"/' (1 in 12 through writer::csv::write and the file system), plus wrap strings "
-            "outside the quantifier (multi-character, `,`, CR, LF) and 20k/200k random texts through both RFC 4180 readers. "
+            "outside the quantifier (multi-character, `,`, CR, LF) and 20k/200k random texts through both RFC 4180 readers; "
+            "3k/60k wrap-string cases (25 strings of 2-4 characters, 14 usable and 11 self-overlapping or CRLF/,,; values built from the string, its "
+            "characters, its prefixes and suffixes; UTF-8/UTF-16; model text vs real bytes, and the real text read back by the harness' own string-quote "
+            "reader: must equal the stored grid for usable strings, counted as recovered/unreadable/misread for the others) and 20k/300k random texts "
+            "through both string-quote readers (`parsew`). "
             "Fixed witnesses of DESIGN.md rows 16 and 24 and the degenerate shapes come first. "
             "non-trivial = an export of a sheet with at least one row, or a parse that returned records; distinct = distinct request line",
     "trusted_base": TB_COMMON + [
@@ -31,8 +44,11 @@ PROP = {
         "cell values are written with set_value_string, so `get_value()` is the stored text (typed values and their display text are C01/C19)",
     ],
     "assumptions": [
-        "wrap_with_char is empty or one character other than `,`, CR, LF (longer wrap strings are outside the model: the line is answered `unmodelled`; "
-        "`,`/CR/LF as wrap character are modelled but cannot be configured in any CSV reader)",
+        "wrap_with_char is empty, or one character other than `,`, CR, LF (`,`/CR/LF as wrap character are modelled but cannot be configured in any CSV reader), "
+        "or a longer string without proper self-overlap other than CRLF (self-overlapping strings are modelled and tied, but the written text is not "
+        "readable in general: C20_wrap_string_overlap_fails)",
+        "wrap strings of two or more characters: the reader of C20_wrap_string_roundtrip accepts escaped fields only (the writer wraps every field) and is "
+        "the RFC 4180 reading rule with the quote generalised to a string; no standard defines multi-character quotes",
         "the sheet has a cell at a column >= 1 whenever it has a row >= 1 (C20_zero_columns_fails shows what happens otherwise)",
         "set_active_sheet is called with an index inside the sheet list and the last sheet is never removed (caller obligations; otherwise get_active_sheet panics)",
         "legacy code pages: the written text is representable (round-trips) in the selected code page",
@@ -41,7 +57,9 @@ PROP = {
     ],
     "partial_clauses": [
         "text not representable in a legacy code page: encoding_rs substitutes `&#NNNN;` (known finding C20-legacy-unrepresentable); not covered by any theorem",
-        "multi-character wrap strings: implementation behaviour (every occurrence of the string doubled) observed by the harness only",
+        "wrap strings with a proper self-overlap (aa, aba, \"\", ...): modelled and tied, but the written text is provably not readable for some values "
+        "(C20_wrap_string_overlap_necessary); the crate accepts them silently (the harness counts recovered / unreadable / misread exports per run); "
+        "the string-quote reader accepts escaped fields only and is tied to the harness' Rust reader by the `parsew` stream, not to any external tool",
     ],
     "technique": "Lean 4 proof over an executable model + stateful differential check + independent RFC 4180 reader as oracle",
     "timeout_quick": 600,
